@@ -20,8 +20,14 @@ mention and that therefore must not change the number of executions:
   fn: "async"|"sync"|"agen_dep"|"gen_dep"|"sync_gen_dep"|"dep_fails"   shape of the task function: coroutine function,
                               plain function (thread pool), with an async / sync generator dependency (try/finally,
                               re-raising, swallowing teardown), or the failure raised by a dependency (not by the body)
-  fail_by: "raise"|"falsy"|"timeout"   how an "F" attempt fails: ValueError, an exception object that is falsy
-                              (__len__ = 0), or by exceeding the task's `timeout` label (virtual time)
+  fail_by: "raise"|"falsy"|"timeout"|"exc"   how an "F" attempt fails: ValueError, an exception object that is falsy
+                              (__len__ = 0), by exceeding the task's `timeout` label (virtual time), or with the
+                              exception(s) described by env["exc"]
+  exc: spec | [spec...]       the exception of the i-th failing attempt (the list cycles); see "how an attempt fails" below:
+                              every exception class taskiq ships (enumerated at run time), builtins, user subclasses of
+                              both, exception groups, chained exceptions, and failures produced by taskiq's own code paths
+                              (waiting for a sub-task whose result never arrives, a failing result backend, ctx.reject(), ...)
+  nr: spec                    how an "N" attempt signals no-result: NoResultError itself or a subclass of it declared HERE
   mw_before / mw_mid / mw_after: [kind...]   other middlewares before RecMiddleware, between it and the retry
                               middleware, after the retry middleware (kinds: see MW_KINDS); mw_late: they are added
                               after the Receiver was constructed
@@ -36,6 +42,12 @@ default_factory defaults, dataclasses, containers of them, plain types, none) an
 [[], {parameter: canonical value}] and the observation carries "typed_expect" ({parameter: canonical value | None}, the
 claim about the first attempt) and "typed_src" (the function's source text).  case["args"] / case["kwargs"] are unused."""
 import asyncio
+import concurrent.futures
+import importlib
+import inspect
+import json
+import pkgutil
+import time as _time
 
 import labels_driver as LD
 import retry_typed as RT
@@ -47,8 +59,8 @@ from taskiq.formatters.json_formatter import JSONFormatter
 from taskiq.receiver import Receiver
 
 ACT = {"F": "fail", "S": "ok", "N": "noresult"}
-FAIL_ACT = {"raise": "fail", "falsy": "fail_falsy", "timeout": "hang"}
-OUT_OF_ACT = {"fail": "F", "fail_falsy": "F", "hang": "F", "ok": "S", "noresult": "N"}
+FAIL_ACT = {"raise": "fail", "falsy": "fail_falsy", "timeout": "hang", "exc": "fail_exc"}
+OUT_OF_ACT = {"fail": "F", "fail_falsy": "F", "hang": "F", "fail_exc": "F", "ok": "S", "noresult": "N"}
 
 
 # ------------------------------------------------------------------ the environment's building blocks
@@ -122,6 +134,347 @@ MW_KINDS = dict(plain=MwPlain, sync_err=MwSyncErr, async_err=MwAsyncErr, subst=M
                 copy=MwCopy, post_save_raises=MwPostSaveRaises)
 
 
+# ------------------------------------------------------------------ how an attempt fails: the exception as a dimension
+# The statement knows three outcomes of an attempt: it succeeds, it signals no-result, it FAILS.  Which exception a failing
+# attempt dies of is not mentioned, so it must not change a single observation.  An exception is described by a spec (pure
+# data, chosen by the generator); whether an attempt is "F" or "N" is decided by the CASE (env["exc"] is only ever used for
+# "F" attempts, env["nr"] for "N" attempts) - never by asking taskiq's class hierarchy what a class derives from.
+#   {"k": "taskiq", "mod": m, "name": n}      a class taskiq ships, looked up by name (list: enumerate_taskiq_exceptions)
+#   {"k": "builtin", "name": n}               BUILTIN_EXC[n]
+#   {"k": "user", "base": spec, "also": builtin name | None, "name": class name, "traits": [...]}
+#                                             a user's subclass of a taskiq / builtin class (optionally of a second, builtin
+#                                             base; traits: falsy, eq_all, unhashable, str_raises - odd but legal dunder methods)
+#   {"k": "group", "of": [spec...]}           ExceptionGroup of failures
+#   {"k": "real", "how": h}                   the failure is produced by taskiq's own code, called the way a task would:
+#       wait_result / wait_result_sent / gather   the task awaits a sub-task's result with a timeout and it never arrives
+#       is_ready_raises / get_result_raises        the result backend fails while the task waits for a sub-task
+#       reject                                     ctx.reject()
+#       shared_kiq                                 kiq of a task of a shared broker that has no default broker
+#   on any of them: "chain": "cause_nr" | "context_nr" | "cause_other" (raise .. from NoResultError() / raised while a caught
+#   NoResultError is being handled / from OSError), "reuse": the same exception object on every attempt, "bare": the class
+#   itself is raised (`raise Cls`).
+# nr spec: {"k": "nr" | "nr_sub" | "nr_subsub", "chain": "cause_fail" | "context_fail" | None, "bare": bool}
+# Out of scope (said in notes/C11.md): BaseExceptions that are not Exceptions (CancelledError, KeyboardInterrupt, SystemExit,
+# GeneratorExit), StopIteration / StopAsyncIteration (Python itself rewrites them at function boundaries), exception groups
+# that CONTAIN a no-result signal (neither clearly a failure nor clearly the signal).
+BUILTIN_EXC = {
+    "Exception": Exception, "ValueError": ValueError, "TypeError": TypeError, "KeyError": KeyError, "LookupError": LookupError,
+    "IndexError": IndexError, "AttributeError": AttributeError, "RuntimeError": RuntimeError,
+    "NotImplementedError": NotImplementedError, "AssertionError": AssertionError, "ZeroDivisionError": ZeroDivisionError,
+    "ArithmeticError": ArithmeticError, "OSError": OSError, "ConnectionError": ConnectionError,
+    "ConnectionResetError": ConnectionResetError, "BrokenPipeError": BrokenPipeError, "FileNotFoundError": FileNotFoundError,
+    "PermissionError": PermissionError, "InterruptedError": InterruptedError, "EOFError": EOFError, "MemoryError": MemoryError,
+    "RecursionError": RecursionError, "BufferError": BufferError, "UnicodeError": UnicodeError, "ImportError": ImportError,
+    "NameError": NameError, "Warning": Warning, "UserWarning": UserWarning, "DeprecationWarning": DeprecationWarning,
+    "TimeoutError": TimeoutError, "asyncio.TimeoutError": asyncio.TimeoutError,
+    "concurrent.futures.TimeoutError": concurrent.futures.TimeoutError, "asyncio.InvalidStateError": asyncio.InvalidStateError,
+    "asyncio.QueueEmpty": asyncio.QueueEmpty, "asyncio.QueueFull": asyncio.QueueFull,
+    "concurrent.futures.BrokenExecutor": concurrent.futures.BrokenExecutor,
+}
+REAL_AWAITS = ("wait_result", "wait_result_sent", "gather", "is_ready_raises", "get_result_raises", "shared_kiq")
+# what the awaiting real paths raise on the unchanged tree - used ONLY where the path cannot be walked (a plain function
+# cannot await): the class is then raised directly
+REAL_DIRECT = {"wait_result": "TaskiqResultTimeoutError", "wait_result_sent": "TaskiqResultTimeoutError",
+               "gather": "TaskiqResultTimeoutError", "is_ready_raises": "ResultIsReadyError",
+               "get_result_raises": "ResultGetError", "shared_kiq": "SendTaskError", "reject": "TaskRejectedError"}
+
+
+class UserNoResult(NoResultError):
+    """a user's own no-result signal: a subclass of NoResultError declared by the harness"""
+
+
+class UserNoResultSub(UserNoResult):
+    """... and a subclass of that"""
+
+
+NR_CLASSES = {"nr": NoResultError, "nr_sub": UserNoResult, "nr_subsub": UserNoResultSub}
+
+
+def _construct(cls):
+    """an instance of an exception class whose constructor we know nothing about"""
+    try:
+        return cls()
+    except TypeError:
+        pass
+    ann = {}
+    for k in reversed(cls.__mro__):
+        for n, t in getattr(k, "__annotations__", {}).items():
+            if not n.startswith("_") and "ClassVar" not in str(t):
+                ann[n] = t
+    try:
+        return cls(**{n: (1.5 if "float" in str(t) else 3 if "int" in str(t) else "x") for n, t in ann.items()})
+    except TypeError:
+        pass
+    params = [p for p in list(inspect.signature(cls.__init__).parameters.values())[1:]
+              if p.default is p.empty and p.kind in (p.POSITIONAL_ONLY, p.POSITIONAL_OR_KEYWORD)]
+    return cls(*["x" for _ in params])
+
+
+def enumerate_taskiq_exceptions():
+    """every exception class defined in a module of the taskiq package that can be imported here, as [module, qualname],
+    constructible ones only; NoResultError - the signal itself, by NAME - is not a way to fail"""
+    import taskiq
+    import warnings
+    found, skipped = {}, []
+    names = ["taskiq"]
+    with warnings.catch_warnings():
+        warnings.simplefilter("ignore")
+        for mi in pkgutil.walk_packages(taskiq.__path__, "taskiq."):
+            names.append(mi.name)
+        for name in names:
+            try:
+                m = importlib.import_module(name)
+            except BaseException as e:  # noqa: BLE001   optional dependencies, pydantic v1 models
+                skipped.append([name, type(e).__name__])
+                continue
+            for o in list(vars(m).values()):
+                if inspect.isclass(o) and issubclass(o, Exception) and (o.__module__ or "").split(".")[0] == "taskiq":
+                    found[(o.__module__, o.__qualname__)] = o
+    out = []
+    for (mod, qn), cls in sorted(found.items()):
+        if qn == "NoResultError" or "." in qn:
+            continue
+        try:
+            if not isinstance(_construct(cls), cls):
+                raise TypeError("not an instance")
+            out.append([mod, qn])
+        except Exception as e:  # noqa: BLE001
+            skipped.append(["%s.%s" % (mod, qn), "not constructible: %s" % type(e).__name__])
+    return {"taskiq_excs": out, "skipped": skipped, "builtins": sorted(BUILTIN_EXC), "real": list(REAL_AWAITS) + ["reject"]}
+
+
+def _exc_class(spec, cache):
+    k = spec["k"]
+    if k == "taskiq":
+        return getattr(importlib.import_module(spec["mod"]), spec["name"])
+    if k == "builtin":
+        return BUILTIN_EXC[spec["name"]]
+    if k == "user":
+        key = json.dumps(spec, sort_keys=True)
+        if key not in cache:
+            bases = [_exc_class(spec["base"], cache)]
+            if spec.get("also"):
+                bases.append(BUILTIN_EXC[spec["also"]])
+            ns = {"__module__": __name__, "__doc__": "a user's own exception class"}
+            traits = spec.get("traits") or []
+            if "falsy" in traits:
+                ns["__bool__"] = lambda self: False
+            if "eq_all" in traits:
+                ns["__eq__"] = lambda self, other: True
+                ns["__ne__"] = lambda self, other: False
+                ns["__hash__"] = lambda self: 0
+            if "unhashable" in traits:
+                ns["__eq__"] = lambda self, other: self is other
+                ns["__hash__"] = None
+            if "str_raises" in traits:
+                def bad_str(self):
+                    raise RuntimeError("__str__ of the exception failed")
+                ns["__str__"] = bad_str
+            name = str(spec.get("name") or "UserError")
+            try:
+                cls = type(name, tuple(bases), ns)
+                _construct(cls)
+            except TypeError:           # the two bases do not combine (instance layout, constructor): the first one alone
+                cls = type(name, tuple(bases[:1]), ns)
+            cache[key] = cls
+        return cache[key]
+    raise ValueError(k)
+
+
+def build_exception(spec, cache):
+    """the exception object (or, with "bare", the class) of a non-"real" spec"""
+    if spec["k"] == "group":
+        return ExceptionGroup("several sub-tasks failed", [build_exception(dict(s, bare=False), cache) for s in spec["of"]])
+    cls = _exc_class(spec, cache)
+    if spec.get("bare"):
+        try:
+            cls()
+            return cls
+        except TypeError:
+            pass
+    return _construct(cls)
+
+
+def _raise_chained(exc, chain):
+    if chain in ("cause_nr", "cause_fail", "cause_other"):
+        raise exc from (NoResultError() if chain == "cause_nr" else ValueError("the cause") if chain == "cause_fail"
+                        else OSError("the cause"))
+    if chain == "context_nr":
+        try:
+            raise NoResultError()
+        except NoResultError:
+            raise exc
+    if chain == "context_fail":
+        try:
+            raise ValueError("handled")
+        except ValueError:
+            raise exc
+    raise exc
+
+
+# taskiq.task.wait_result / taskiq.funcs.gather measure their timeout with the wall clock (`from time import time`) while they
+# sleep on the event loop; on the virtual-time loop the wall clock does not move with the sleeps.  The module global `time` of
+# those two modules (only if it is time.time) is replaced by the virtual clock while a VLoop runs.
+def _vtime():
+    try:
+        loop = asyncio.get_running_loop()
+    except RuntimeError:
+        return _time.time()
+    return loop.time() if isinstance(loop, vloop.VLoop) else _time.time()
+
+
+def _install_clock():
+    for name in ("taskiq.task", "taskiq.funcs"):
+        try:
+            m = importlib.import_module(name)
+        except Exception:  # noqa: BLE001
+            continue
+        if getattr(m, "time", None) is _time.time:
+            m.time = _vtime
+
+
+_install_clock()
+
+
+class ChildBackend(LD.RecBackend):
+    """RecBackend that additionally knows sub-tasks (ids "child..."): their result never arrives / asking for it fails"""
+
+    def __init__(self, log):
+        super().__init__(log)
+        self.child_mode = "never"
+
+    async def is_result_ready(self, task_id):
+        if str(task_id).startswith("child"):
+            if self.child_mode == "is_ready_raises":
+                raise ConnectionError("result backend is down")
+            return self.child_mode == "get_result_raises"
+        return await super().is_result_ready(task_id)
+
+    async def get_result(self, task_id, with_logs=False):
+        if str(task_id).startswith("child"):
+            raise ConnectionError("result backend is down")
+        return await super().get_result(task_id, with_logs=with_logs)
+
+
+class DropBroker(LD.AsyncBroker):
+    """the broker sub-tasks are sent through: the message leaves and no worker ever executes it"""
+
+    def __init__(self, backend):
+        super().__init__()
+        n = [0]
+
+        def gen():
+            n[0] += 1
+            return "child-sent-%d" % n[0]
+
+        self.with_id_generator(gen)
+        self.result_backend = backend
+        self.sent = []
+
+    async def kick(self, message):
+        self.sent.append(message.task_id)
+
+    async def listen(self):
+        return
+        yield b""  # pragma: no cover
+
+
+async def real_failure(how, ctx, n):
+    """walk the real taskiq code path `how` the way a task body would; it raises"""
+    from taskiq.brokers.shared_broker import AsyncSharedBroker
+    from taskiq.funcs import gather
+    from taskiq.task import AsyncTaskiqTask
+    backend = ctx.broker.result_backend
+    if how == "reject":
+        ctx.reject()
+    elif how == "shared_kiq":
+        async def sub():
+            return 1
+        await AsyncSharedBroker().task(task_name="shared_sub_%d" % n)(sub).kiq()
+    elif how == "wait_result_sent":
+        async def sub(x):
+            return x
+        handle = await DropBroker(backend).task(task_name="dropped_sub_%d" % n)(sub).kiq(n)
+        await handle.wait_result(check_interval=0.01, timeout=0.03)
+    elif how == "gather":
+        await gather(AsyncTaskiqTask("child-a%d" % n, backend), AsyncTaskiqTask("sibling-ready-%d" % n, backend),
+                     timeout=0.03, periodicity=0.01)
+    else:
+        backend.child_mode = how if how in ("is_ready_raises", "get_result_raises") else "never"
+        await AsyncTaskiqTask("child-%d" % n, backend).wait_result(check_interval=0.01, timeout=0.03)
+    raise AssertionError("harness: the path %r returned instead of raising" % how)
+
+
+class Failures:
+    """per scenario: which exception the i-th failing / no-result attempt dies of"""
+
+    def __init__(self, env):
+        exc = env.get("exc")
+        self.specs = [exc] if isinstance(exc, dict) else list(exc or [])
+        self.nr = env.get("nr") or {"k": "nr"}
+        self.cache, self.kept, self.n, self.log, self.ctx, self.errors = {}, {}, 0, [], None, []
+
+    def _note(self, e, spec):
+        cls = e if inspect.isclass(e) else type(e)
+        self.log.append({"spec": spec, "cls": "%s.%s" % (cls.__module__, cls.__qualname__), "bare": inspect.isclass(e)})
+
+    def next_spec(self):
+        spec = self.specs[self.n % len(self.specs)] if self.specs else {"k": "builtin", "name": "ValueError"}
+        self.n += 1
+        return spec
+
+    def needs_await(self):
+        spec = self.specs[self.n % len(self.specs)] if self.specs else {}
+        return spec.get("k") == "real" and spec.get("how") in REAL_AWAITS
+
+    def _plain(self, spec):
+        i = (self.n - 1) % max(1, len(self.specs))
+        if spec.get("reuse") and i in self.kept:
+            return self.kept[i]
+        e = build_exception(spec, self.cache)
+        if spec.get("reuse"):
+            self.kept[i] = e
+        return e
+
+    def fail_sync(self):
+        """raise the next failure from synchronous code"""
+        spec = self.next_spec()
+        if spec["k"] == "real":
+            if spec["how"] == "reject" and self.ctx is not None:
+                try:
+                    self.ctx.reject()
+                except Exception as e:  # noqa: BLE001
+                    self._note(e, spec)
+                    _raise_chained(e, spec.get("chain"))
+            # a plain function cannot await: the class the path raises, directly
+            spec = dict(spec, k="taskiq", mod="taskiq.exceptions", name=REAL_DIRECT[spec["how"]], direct=True)
+        e = self._plain(spec)
+        self._note(e, spec)
+        _raise_chained(e, spec.get("chain"))
+
+    async def fail_async(self):
+        if not self.needs_await():
+            return self.fail_sync()
+        spec = self.next_spec()
+        try:
+            await real_failure(spec["how"], self.ctx, self.n)
+        except AssertionError as e:
+            self.errors.append(str(e))
+            raise
+        except Exception as e:  # noqa: BLE001
+            self._note(e, spec)
+            if spec.get("chain"):
+                _raise_chained(e, spec["chain"])
+            raise
+
+    def noresult(self):
+        spec = self.nr
+        cls = NR_CLASSES[spec.get("k", "nr")]
+        e = cls if spec.get("bare") else cls()
+        self._note(e, spec)
+        _raise_chained(e, spec.get("chain"))
+
+
 def make_body(scen, env, typed=None):
     """the task function; same plan stepping / logging as labels_driver's body, in the shape env["fn"] asks for; with
     `typed`, the function with annotated parameters written by retry_typed.function_source"""
@@ -133,7 +486,10 @@ def make_body(scen, env, typed=None):
             return scen.plan[0]
         return scen.plan.pop(0) if scen.plan else "ok"
 
+    failures = scen.failures = Failures(env)
+
     def record(act, ctx, args, kwargs):
+        failures.ctx = ctx
         scen.body_log.append({"act": act, "ctx": LD.enc_dict(ctx.message.labels), "tid": ctx.message.task_id,
                               "args": list(args), "kwargs": dict(kwargs)})
 
@@ -142,14 +498,18 @@ def make_body(scen, env, typed=None):
             raise ValueError("planned failure")
         if act == "fail_falsy":
             raise EmptyError()
+        if act == "fail_exc":
+            failures.fail_sync()
         if act == "noresult":
-            raise NoResultError()
+            failures.noresult()
         return "ok"
 
     async def aperform(act):
         if act == "hang":
             await asyncio.sleep(3600)
             return "late"
+        if act == "fail_exc":
+            await failures.fail_async()
         return perform(act)
 
     async def agen_dep():
@@ -176,8 +536,8 @@ def make_body(scen, env, typed=None):
         """a dependency that fails instead of the body"""
         act = next_act()
         record(act, ctx, ctx.message.args, ctx.message.kwargs)
-        if act in ("fail", "fail_falsy"):
-            perform(act)
+        if act in ("fail", "fail_falsy") or (act == "fail_exc" and not failures.needs_await()):
+            perform(act)        # (a failure that has to be awaited is left to the body)
         return act
 
     if typed is not None:
@@ -293,6 +653,8 @@ class EnvScenario(LD.Scenario):
         self.env, self.acks, self.teardown, self.typed_src = env, [], [], None
         body = make_body(self, env, typed)
         for b in self.brokers:
+            if env.get("exc") is not None:
+                b.result_backend = ChildBackend(self.log)      # before any Receiver exists
             if env.get("fmt") == "json":
                 b.with_formatter(JSONFormatter())
             for name in self.names:
@@ -366,7 +728,9 @@ def run_env(lc, case, opts):
             rec.update(broker=b, task_id=m.task_id, task_name=m.task_name, bm_labels=LD.enc_dict(m.labels),
                        wire=LD.wire_of(sc.brokers[b], m))
             rec["chain"] = await sc.deliver_chain(b, m, rec["plan"])
-        return {"names": sc.names, "sent": [rec], "final": sc.snapshot(), "acks": list(sc.acks),
+        if sc.failures.errors:
+            raise RuntimeError("harness: %s" % sc.failures.errors)
+        return {"names": sc.names, "sent": [rec], "final": sc.snapshot(), "acks": list(sc.acks), "raised_log": sc.failures.log,
                 "typed_expect": expect, "typed_src": sc.typed_src,
                 "teardown": list(sc.teardown), "cli_kw": None if cli_kw is None else {k: repr(v) for k, v in sorted(cli_kw.items())},
                 "other_str": {k: [ord(c) for c in str(LD.dec({"t": "other", "k": k}))] for k in LD.OTHER_KINDS}}
@@ -375,6 +739,8 @@ def run_env(lc, case, opts):
 
 
 def run_case(case, opts):
+    if case.get("enumerate_excs"):
+        return enumerate_taskiq_exceptions()
     env = case.get("env")
     fail_act = FAIL_ACT[(env or {}).get("fail_by", "raise")]
     lc = dict(ser=case.get("ser", "json"), mw=dict(case["mw"], enabled=True), repeat_last=True, guard=case.get("guard", 40),
@@ -398,7 +764,7 @@ def run_case(case, opts):
     out = dict(sent_id=s.get("task_id"), err=s["err"], wire=s.get("wire"), execs=execs, undelivered=undelivered,
                final_task_labels=o["final"][0], other_str=o["other_str"])
     if not plain:
-        out.update(acks=o["acks"], teardown=o["teardown"], cli_kw=o["cli_kw"])
+        out.update(acks=o["acks"], teardown=o["teardown"], cli_kw=o["cli_kw"], raised_log=o["raised_log"])
     if case.get("typed") is not None:
         out.update(typed_expect=o["typed_expect"], typed_src=o["typed_src"])
     return out
